@@ -14,6 +14,8 @@ func main() {
 	switch os.Args[1] {
 	case "SMOKE":
 		runSmoke()
+	case "C02":
+		runC02()
 	default:
 		fmt.Fprintln(os.Stderr, "unknown property", os.Args[1])
 		os.Exit(64)
